@@ -22,7 +22,7 @@ LEVEL = 'model_checking'
 PREFORK_WORLD = {}
 RULE = ('state = (route, representation, mode, drm selection, playready version, la_url); the whole product is '
         'enumerated; non-trivial = a 200 init response of an encrypted track with a non-empty DRM selection that '
-        'was diffed against the stored bytes')
+        'was diffed against the stored bytes; history pairs: state = (session a, session b), every ordered pair, each in a process forked for it')
 ASSUMPTIONS = [
     'SystemIDs from the DASH-IF registry: PlayReady 9a04f079-9840-4286-ab92-e65be0885f95, W3C ClearKey '
     '1077efec-c0b2-4d02-ace3-3c1e52e2fb4b',
